@@ -82,13 +82,20 @@ def unacknowledged(ck, agg, nn):
     nn.model.on_recursion = lambda it, st, fr, node, target, args, kw: sum_upd(nn.model, it, st, fr, node, target, [fr.self_val] + list(args), kw)
     n = 0
     for send_type in (T.CONSTANTS["TX_MULTICAST"], T.CONSTANTS["TX_PHYSICAL"], T.CONSTANTS["TX_NORMAL"], T.CONSTANTS["TX_ROUTED"]):
-        for mlen in (4, 30):
+        for mlen, mtyp in ((4, 7), (30, 7), (4, 100)):
             n += 1
-            st, node = nn.fresh(frame_pins={"message_type": 7}, msg_len=mlen)
+            st, node = nn.fresh(frame_pins={"message_type": mtyp}, msg_len=mlen)
             net.set_rng(st, "wd", (0, 0o7777))
             outs = nn.run(f, node, [Sym("wd", "int", rng=(0, 0o7777)), send_type], st, limits=Limits(max_paths=60000, loop_unroll=2, depth=14, concrete_loop=10))
             for out in outs:
+                if out.kind == "return":
+                    # back in RX mode nobody may acknowledge on the shared pipe-0 address: EN_AA.0 must be clear at every return
+                    aa_end = const_of(norm(out.state.extra["regs"].get(contract.EN_AA)))
+                    agg.add("R14.2", f, "the node returns to listening with auto-ack off on pipe 0 (it must not acknowledge multicasts of its level)", aa_end == 0x3E,
+                            "_write(send_type %d) returns with EN_AA = %s" % (send_type, ("0x%02X" % aa_end) if isinstance(aa_end, int) else out.state.extra["regs"].get(contract.EN_AA)))
                 for ev in out.trace:
+                    if ev.kind == "summary" and ev.data[0] == "_net_update":
+                        agg.add("R14.2", f, "while waiting for a NETWORK_ACK the node listens with auto-ack off on pipe 0", "EN_AA" not in ev.data[2], "nested update(): %s" % ev.data[2], ev.node)
                     if ev.kind != "radio-send":
                         continue
                     aa = const_of(norm(ev.data[5]["EN_AA"]))
@@ -118,7 +125,7 @@ def relay(ck, agg, nn):
     for mtype in (7, 100, POLL):
         for am in (True, False):
             for relay_on in (True, False):
-                for lvl in (1, 2, 3):
+                for lvl in (0, 1, 2, 3, 4):
                     for addr in (0o1, 0o4444):
                         n += 1
                         st, node = nn.fresh(frame_pins={"message_type": mtype, "to_node": MCAST}, fields={"allow_multicast": am, "_relay_enabled": relay_on, "_net_lvl": lvl, "_addr": addr})
@@ -150,8 +157,10 @@ def relay(ck, agg, nn):
                                 agg.add("R14.3", f, "with multicast_relay on, the frame is re-broadcast exactly once", len(wr) == 1, "%s: %d re-broadcasts" % (label, len(wr)))
                                 if wr:
                                     a = wr[0].data[3]["args"]
-                                    agg.add("R14.3", f, "the relay goes to the next level's address as a multicast", const_of(norm(a[0])) == lvl_addr(lvl + 1) and const_of(norm(a[1])) == T.CONSTANTS["TX_MULTICAST"],
-                                            "%s: relayed to %r with send type %r (next level address is %s)" % (label, a[0], a[1], oct(lvl_addr(lvl + 1))))
+                                    # levels 1..3 relay to the next level; a level-0 node's relay target is (0 << 3) = 0, its own address (never level 1)
+                                    want_t = (lvl_addr(lvl) << 3) & 0xFFFF
+                                    agg.add("R14.3", f, "the relay goes to the next level's address as a multicast (level 0 never relays down to level 1)", const_of(norm(a[0])) == want_t and const_of(norm(a[1])) == T.CONSTANTS["TX_MULTICAST"],
+                                            "%s: relayed to %r with send type %r (expected %s)" % (label, a[0], a[1], oct(want_t)))
                                     agg.add("R14.3", f, "the frame is queued before it is relayed", bool(enq) and enq[0].seq < wr[0].seq, label)
                             else:
                                 agg.add("R14.3", f, "without multicast_relay nothing is re-broadcast", not wr, "%s: %d transmissions" % (label, len(wr)))
